@@ -1,0 +1,36 @@
+//go:build verif
+
+package leader
+
+// Contracts for the govc deductive checker (see /verif/DESIGN.md).
+// This file contains comments only; it is compiled only with -tags verif
+// and adds no code even then.
+
+// ---------------------------------------------------------------------------
+// C16 — configuration validation
+// ---------------------------------------------------------------------------
+
+//@ spec InDurRange(d) = -3074457345618258602 <= d && d <= 3074457345618258602
+
+//@ spec ValidCfg(c) =
+//@      c.Bucket != "" && c.Group != "" && c.InstanceID != "" &&
+//@      c.TTL > 0 && c.HeartbeatInterval > 0 && c.TTL >= 3*c.HeartbeatInterval &&
+//@      (c.ValidationInterval == 0 || c.ValidationInterval >= c.HeartbeatInterval) &&
+//@      (c.DisconnectGracePeriod == 0 || c.DisconnectGracePeriod >= 2*c.HeartbeatInterval) &&
+//@      c.MaxConsecutiveFailures >= 0 && (c.AllowPriorityTakeover ==> c.Priority > 0)
+
+//@ spec Offends(c, f) =
+//@      (f == "Bucket" && c.Bucket == "") || (f == "Group" && c.Group == "") || (f == "InstanceID" && c.InstanceID == "") ||
+//@      (f == "TTL" && (c.TTL <= 0 || (c.HeartbeatInterval > 0 && c.TTL < 3*c.HeartbeatInterval))) ||
+//@      (f == "HeartbeatInterval" && c.HeartbeatInterval <= 0) ||
+//@      (f == "ValidationInterval" && c.ValidationInterval != 0 && c.ValidationInterval < c.HeartbeatInterval) ||
+//@      (f == "DisconnectGracePeriod" && c.DisconnectGracePeriod != 0 && c.DisconnectGracePeriod < 2*c.HeartbeatInterval) ||
+//@      (f == "MaxConsecutiveFailures" && c.MaxConsecutiveFailures < 0) ||
+//@      (f == "Priority" && c.AllowPriorityTakeover && c.Priority <= 0)
+
+//@ func validateConfig(cfg)
+//@   tags C16
+//@   flag arith pure
+//@   requires InDurRange(cfg.TTL) && InDurRange(cfg.HeartbeatInterval) && InDurRange(cfg.ValidationInterval) && InDurRange(cfg.DisconnectGracePeriod)
+//@   ensures C16.accepts_iff_valid: (result == nil) == ValidCfg(cfg)
+//@   ensures C16.names_offender: result != nil ==> istype(result, *ValidationError) && Offends(cfg, result.(*ValidationError).Field)
